@@ -317,6 +317,20 @@ def check_c14(tier, seed, log=print):
                 for n in (1, 2):
                     ops = [first, '0'] * j + ['bump', '0', str(n), first, '0', first, '0', 'clone', '0', first, '1']
                     reqs.append('API %s 1 %s' % (P.hexs(src.encode('utf-8')), ' '.join(ops)))
+    # small scope, exhaustively: after 0 or 2 warm-up calls, every sequence of three calls over a fixed menu (both handles of
+    # the pool, in-range and out-of-range bumps), ordinary and partial lexer, followed by a read through both handles
+    menu = [['next', '0'], ['snext', '0'], ['bump', '0', '1'], ['bump', '0', '2'], ['bump', '0', '99'], ['clone', '0'], ['morph', '0'], ['next', '1'], ['snext', '1'],
+            ['bump', '1', '1'], ['clone', '1'], ['morph', '1']]
+    n_exh = 0
+    for src in (['ab 12 é'] if tier == 'quick' else ['ab 12 é', 'x1 y2  z3', 'é']):
+        for warm in (0, 2):
+            for a in menu:
+                for b in menu:
+                    for c in menu:
+                        for partial in (0, 1):
+                            ops = ['next', '0'] * warm + a + b + c + ['snext', '0', 'next', '1']
+                            reqs.append('API %s %d %s' % (P.hexs(src.encode('utf-8')), partial, ' '.join(ops)))
+                            n_exh += 1
     # the same over a [u8] source (two binary token types): every index <= len is a boundary there
     bsrcs = [b'', b'a', b'ab \xff', b'\x80\x81a b', b'ab  cd', b'x\xc3', b'hello \xfe\xff z']
     for k in range(n_hist // 2):
@@ -382,7 +396,7 @@ def check_c14(tier, seed, log=print):
     run.coverage.update(dict(obligations=au['obligations'], discharged=au['discharged'], theorems=au['names'], axioms=au['axioms'],
                              checker_cmd=au['checker_cmd'], trusted_base=TRUSTED_BASE,
                              evaluations=evals, distinct_nontrivial=len(nontriv), op_mix=opcount, configs=list(bins),
-                             rule='random histories of next / spanned-next / bump (in range, out of range, overflowing) / clone / morph on a pool of lexers of two token types over one source (str: TokA/TokB; [u8]: TokC/TokD), ordinary and partial, '
+                             rule='random histories, and exhaustively every three-call sequence over a 12-entry menu after 0 or 2 warm-up calls, of next / spanned-next / bump (in range, out of range, overflowing) / clone / morph on a pool of lexers of two token types over one source (str: TokA/TokB; [u8]: TokC/TokD), ordinary and partial, '
                                   'run on the real Lexer (debug/release x default/forbid_unsafe; after every call span, slice == source[span], remainder == source[end..], extras are checked) and on the Lean pool model over the captured graphs of the same two definitions; non-trivial = history contains clone and morph',
                              samples=samples, model_vs_impl_disagreements=tie_dis))
     run.assumptions += ['extras are a constant carried along (the token types have no extras-mutating callbacks)',
